@@ -86,7 +86,13 @@ func NewCommentReader(r io.Reader, startMatches, endMatches [][]byte, isComments
 
 		var extra int
 		left := data[pos+len(startMatches[index]):]
-		if extra = bytes.Index(left, endMatches[index]); extra == -1 {
+		if isComments[index] {
+			extra = bytes.Index(left, endMatches[index])
+		} else {
+			// For string, the end flag maybe escaped, for example, "a\"b".
+			extra = indexUnescaped(left, endMatches[index])
+		}
+		if extra == -1 {
 			if atEOF {
 				if requiredMatches[index] {
 					return 0, nil, commentNotMatch
@@ -144,6 +150,20 @@ func (v *commentReader) Read(p []byte) (n int, err error) {
 
 // get the first match in flags.
 // @return the matched pos in data and the index of flags.
+// Similar to bytes.Index, but ignore the byte escaped by backslash.
+func indexUnescaped(data, sep []byte) int {
+	for i := 0; i < len(data); i++ {
+		if data[i] == '\\' {
+			i++
+			continue
+		}
+		if bytes.HasPrefix(data[i:], sep) {
+			return i
+		}
+	}
+	return -1
+}
+
 func firstMatch(data []byte, flags [][]byte) (pos, index int) {
 	pos = -1
 	index = pos
